@@ -293,10 +293,10 @@ def FKind.fitsVal : FKind → FVal → Bool
     else decide (0 ≤ n ∧ n < (2 : Int) ^ w)
   | .fixedArr elem len, .bytes b => b.length == elem * len
   | .arr elem, .bytes b => elem == 1 && decide (b.length < 65536)
-  | .arr elem, .nums l => elem != 1 && decide (l.length < 65536) && l.all (fun n => decide (n < 256 ^ elem))
+  | .arr elem, .nums l => elem != 1 && decide (l.length * elem < 65536) && l.all (fun n => decide (n < 256 ^ elem))
   | .str, .bytes b => decide (b.length < 65536)
   | .bitArr, .bits n b => decide (n < 65536) && b.length == (n + 7) / 8
-  | .rest, .bytes _ => true
+  | .rest, .bytes b => decide (b.length < 65536)
   | _, _ => false
 
 /-- field values match the field list (pads carry no value) -/
@@ -580,8 +580,20 @@ def decParam (S : Schema) : Nat → Container → Bytes → Option (Val × Bytes
       else none
 end
 
+/-- the largest number of sub-parameter slots of a container of the table -/
+def Schema.maxSlots : Schema → Nat
+  | [] => 0
+  | c :: cs => max c.slots.length (Schema.maxSlots cs)
+
+/-- fuel that provably never cuts a decode short (C11 `decode_fuel`): one nesting level costs at most
+`#groups + #slots + 3 ≤ 2·#slots + 3` fuel decrements and every nested parameter body is at least one byte shorter than
+the data it is cut from. (A bound that ignores the table, such as `4·len + 8`, is too small for tables with many
+optional groups: 8 alternating optional/repeatable slots and the empty input need 10.) -/
+def decodeFuel (S : Schema) (c : Container) (d : Bytes) : Nat :=
+  (2 * S.maxSlots + 4) * d.length + 2 * c.slots.length + 8
+
 /-- `UnmarshalBinary` of a message payload or of a parameter body -/
 def decode (S : Schema) (c : Container) (d : Bytes) : Option Val :=
-  decBody S (4 * d.length + 8) c d
+  decBody S (decodeFuel S c d) c d
 
 end LLRP
